@@ -274,3 +274,24 @@ def ir_builder_premise(prog: Program, rep: Any) -> None:
             rep.bad("PREMISE-C15", f"{o.rule} {o.instance}", o.where, f"the thermostat command is built by a function that violates C15 {o.rule}: {o.why}", key=f"PREMISE-C15|{o.rule}|{o.instance}")
         else:
             rep.undecided("PREMISE-C15", f"{o.rule} {o.instance}", o.where, f"C15 {o.rule} is undecided on this tree, so what build_command returns is not established: {o.why}")
+
+
+def duration_premise(prog: Program, rep: Any) -> None:
+    """A listed schedule reports a duration, computed by calc_duration from the two decoded clock texts; that this is
+    (end - start) mod 24 h for every pair of times is C14's theorem.  C14's rules are re-run on the current tree and what
+    they cannot discharge is inherited as rule PREMISE-C14 (a violation stays a violation: the duration is one of the
+    fields C10 says are decoded exactly)."""
+    from .props import c14
+    from .report import DISCHARGED, Report, VIOLATED
+
+    sub = Report("C14", "quick", "proof")
+    c14.run(prog, sub, "quick")
+    rep.rule("PREMISE-C14", "the duration every listed schedule reports is calc_duration(start, end) = (end - start) mod 24 h (C14's rules on this tree)", 1)
+    bad = [o for o in sub.obligations if o.verdict != DISCHARGED]
+    if not bad:
+        rep.ok("PREMISE-C14", "schedule duration", "src/aioswitcher/schedule/tools.py calc_duration", f"{len(sub.obligations)} obligations of C14 discharged")
+    for o in bad[:6]:
+        if o.verdict == VIOLATED:
+            rep.bad("PREMISE-C14", f"{o.rule} {o.instance}", o.where, f"the duration of a listed schedule is computed by a function that violates C14 {o.rule}: {o.why}", key=f"PREMISE-C14|{o.rule}|{o.instance}")
+        else:
+            rep.undecided("PREMISE-C14", f"{o.rule} {o.instance}", o.where, f"C14 {o.rule} is undecided on this tree, so the duration a listed schedule reports is not established: {o.why}")
